@@ -468,6 +468,8 @@ def _check_lockable(ctx, f, mt, e):
         for n in walk(el["expr"]):
             if n.get("k") == "call" and short(n.get("name") or "") in ("compare_exchange_weak", "compare_exchange_strong", "exchange", "test_and_set"):
                 prims.append((bid, i, el, n))
+    if not prims and _ticket_lock(ctx, lk, ul, mt):
+        return
     if not prims:
         ctx.broken("R09.6", lk, "lock-acquire-loop", "%s::lock() uses no atomic read-modify-write (compare_exchange / exchange / test_and_set): idiom not recognised" % mt, lk)
         return
@@ -529,6 +531,71 @@ def _check_lockable(ctx, f, mt, e):
                 rel = True
     ctx.check(rel, "R09.6", ul, "unlock-stores-free", "%s::unlock() does not store `free`" % mt, ul)
     ctx.trust("a hand-written lock is verified for its acquire/release protocol only (memory orders: acquire on success, release on unlock are not decided)")
+
+
+def _ticket_lock(ctx, lk, ul, mt):
+    """ticket lock: lock() draws `t = next.fetch_add(1)` and waits until `serving` equals t; unlock() advances `serving` by one.
+    Correct for counters of any width only when the wait is on (in)equality: an ordered comparison breaks when the counter wraps."""
+    ticket = None
+    for bid, i, el in lk.roots():
+        x = el["expr"]
+        if x.get("k") == "decl":
+            for v in x.get("vars", []):
+                init = ir.unwrap(v.get("init"))
+                while isinstance(init, dict) and init.get("k") == "cast":
+                    init = ir.unwrap(init["e"])
+                if isinstance(init, dict) and init.get("k") == "call" and short(init.get("name") or "") in ("fetch_add", "operator++") and init.get("this") is not None:
+                    a = [y for y in init.get("args", []) if not (isinstance(y, dict) and y.get("k") == "defarg")]
+                    if short(init.get("name") or "") == "operator++" or (a and literal_int(a[0]) == 1):
+                        ticket = (v["name"], fmt(ir.unwrap(init["this"])), v.get("type"), v.get("bits"))
+    loops = cfg.loop_blocks(lk)
+    if ticket is None or len(loops) != 1:
+        return False
+    head, body = loops[0]
+    cond = lk.term(head).get("cond")
+    c2, neg = cfg.strip_not(cond) if cond is not None else (None, False)
+    bo = ir.as_binop(ir.unwrap(c2)) if c2 is not None else None
+    if not bo:
+        return False
+    sides = [ir.unwrap(bo[1]), ir.unwrap(bo[2])]
+    def is_load(y):
+        while isinstance(y, dict) and y.get("k") == "cast":
+            y = ir.unwrap(y["e"])
+        return isinstance(y, dict) and ((y.get("k") == "call" and short(y.get("name") or "") in ("load", "operator unsigned short", "operator unsigned int", "operator unsigned long", "operator int") and y.get("this") is not None)
+                                        or (y.get("k") == "call" and "operator" in short(y.get("name") or "") and y.get("this") is not None))
+    def is_ticket(y):
+        while isinstance(y, dict) and y.get("k") == "cast":
+            y = ir.unwrap(y["e"])
+        return isinstance(y, dict) and y.get("k") == "ref" and y.get("decl") == "local:" + ticket[0]
+    if not ((is_load(sides[0]) and is_ticket(sides[1])) or (is_load(sides[1]) and is_ticket(sides[0]))):
+        return False
+    op = bo[0]
+    if neg:
+        op = {"==": "!=", "!=": "==", "<": ">=", ">": "<=", "<=": ">", ">=": "<"}.get(op, op)
+    # the loop is left only through the condition's false edge (no break that skips the wait)
+    exits = [(b0, to) for b0 in body for to, _ in lk.succs(b0) if to not in body]
+    only_cond = all(b0 == head for b0, _ in exits)
+    ctx.check(op == "!=" and only_cond, "R09.6", lk, "ticket-wait-until-served",
+              "%s::lock() waits `while (serving %s ticket)`%s: the counters are finite (%s) and wrap around - after the wrap a new ticket compares %s the serving number although earlier tickets are still "
+              "being served, so its holder enters the critical section at once; only waiting on inequality (`serving != ticket`) is wrap-safe"
+              % (mt, op, "" if only_cond else " and can leave the wait otherwise", ticket[2], "below" if op in ("<", "<=") else "beyond"), lk, why_ok="waits while serving != ticket")
+    adv = False
+    for bid, i, el in ul.roots():
+        for n in walk(el["expr"]):
+            if n.get("k") == "call" and short(n.get("name") or "") in ("fetch_add", "operator++", "store") and n.get("this") is not None:
+                adv = True
+            if n.get("k") == "un" and n.get("op") in ("++pre", "++post"):
+                adv = True
+    ctx.check(adv, "R09.6", ul, "ticket-unlock-advances", "%s::unlock() does not advance the serving number" % mt, ul)
+    ctx.trust("a ticket lock is verified for its draw / wait / advance protocol only (memory orders and fairness are not decided)")
+    return True
+
+
+def literal_int(n):
+    n = ir.unwrap(n)
+    while isinstance(n, dict) and n.get("k") == "cast":
+        n = ir.unwrap(n["e"])
+    return n.get("v") if isinstance(n, dict) and n.get("k") == "lit" and isinstance(n.get("v"), int) else None
 
 
 def _lit(n):
